@@ -106,14 +106,23 @@ class Impl:
         self.ntc = ntc
         self.PusVerificator = PusVerificator
         self.sf = {StatusField.UNSET: UNSET, StatusField.FAILURE: FAILURE, StatusField.SUCCESS: SUCCESS}
-        self.tcs = {t: PusTc(service=17, subservice=1, apid=APID, seq_count=SEQ0 + t) for t in range(0, ntc + 1)}
+        from spacepackets.ccsds.spacepacket import PacketType, SequenceFlags, SpacePacketHeader
+
+        # the last telecommand (and the never registered number 0) carries sequence flags FIRST_SEGMENT - a header only the
+        # alternate constructor (or a decoder) produces; the request ID is the first four header octets whatever they are
+        self.flags = {t: (1 if t in (0, ntc) else 3) for t in range(0, ntc + 1)}
+        self.tcs = {t: (PusTc(service=17, subservice=1, apid=APID, seq_count=SEQ0 + t) if self.flags[t] == 3 else
+                        PusTc.from_sp_header(SpacePacketHeader(PacketType.TC, APID, SEQ0 + t, 0, True, SequenceFlags(self.flags[t])), 17, 1))
+                    for t in range(0, ntc + 1)}
         self.tcs_dec = {}
-        self.rids = {t: RequestId.from_pus_tc(tc) for t, tc in self.tcs.items()}
-        # the request IDs as the harness knows them (version 0, TC, secondary header, APID, unsegmented, count)
-        self.u32 = {t: (1 << 28) | (1 << 27) | (APID << 16) | (3 << 14) | (SEQ0 + t) for t in range(0, ntc + 1)}
+        # the request IDs as the harness knows them (version 0, TC, secondary header, APID, sequence flags, count)
+        self.u32 = {t: (1 << 28) | (1 << 27) | (APID << 16) | (self.flags[t] << 14) | (SEQ0 + t) for t in range(0, ntc + 1)}
         self.t_of = {self.u32[t]: t for t in range(1, ntc + 1)}
         self.tms = {}
         self.nbs = {}
+        # the RequestId objects the reports are built with: through the plain constructors from the 32-bit value for even telecommand
+        # numbers (independent of the library's header conversion), through RequestId.from_pus_tc for odd ones
+        self.rids = {t: (self.rid(self.u32[t], False) if t % 2 == 0 else RequestId.from_pus_tc(tc)) for t, tc in self.tcs.items()}
 
     # -- objects -------------------------------------------------------------------
     def tc(self, t, decoded):
